@@ -270,7 +270,11 @@ Proof.
 Qed.
 
 Lemma wfo_apply o x : wfo o = true -> wfo (snd (apply dict o x)) = true.
-Proof. destruct x as [[steps leaf] a]. apply wfo_apply_sel. Qed.
+Proof.
+  destruct x as [[steps leaf] a]. intros H. cbn [apply].
+  destruct (constructive a); [|apply wfo_apply_sel, H].
+  destruct (check_path dict steps o); [apply wfo_apply_sel, H|exact H|exact H].
+Qed.
 
 Lemma wfo_apply_all ops : forall o, wfo o = true -> wfo (apply_all dict ops o) = true.
 Proof. induction ops as [|x ops IH]; intros o H; cbn; [exact H|]. apply IH, wfo_apply, H. Qed.
@@ -296,9 +300,9 @@ Proof.
   - destruct (get o t); [apply get_put_other; exact Hn|reflexivity].
 Qed.
 
-Lemma frame o x t' : t' <> root_tag x -> get (snd (apply dict o x)) t' = get o t'.
+Lemma frame_sel steps leaf a o t' : t' <> root_tag (steps, leaf, a) -> get (snd (apply_sel dict steps leaf a o)) t' = get o t'.
 Proof.
-  destruct x as [[steps leaf] a]. cbn [root_tag apply]. destruct steps as [|[t item] rest]; intros Hn.
+  cbn [root_tag]. destruct steps as [|[t item] rest]; intros Hn.
   - apply frame_leaf, Hn.
   - cbn [apply_sel].
     set (created := match get o t with Some _ => Ok o | None => _ end).
@@ -314,6 +318,13 @@ Proof.
     + destruct (apply_sel dict rest leaf a []) as [r it']. cbn [snd]. rewrite get_put_other by exact Hn. exact Hc.
     + destruct (nth_error items (N.to_nat item)) as [it|]; cbn [snd]; [|exact Hc].
       destruct (apply_sel dict rest leaf a it) as [r it']. cbn [snd]. rewrite get_put_other by exact Hn. exact Hc.
+Qed.
+
+Lemma frame o x t' : t' <> root_tag x -> get (snd (apply dict o x)) t' = get o t'.
+Proof.
+  destruct x as [[steps leaf] a]. intros Hn. cbn [apply].
+  destruct (constructive a); [|apply frame_sel, Hn].
+  destruct (check_path dict steps o); [apply frame_sel, Hn|reflexivity|reflexivity].
 Qed.
 
 (** * No panic: the [expect] in [apply] is unreachable *)
@@ -440,27 +451,109 @@ Proof.
         destruct (N.to_nat item) eqn:En; [lia|]. reflexivity.
 Qed.
 
+Lemma check_no_panic steps : forall o w, check_path dict steps o <> Panic w.
+Proof.
+  induction steps as [|[t item] rest IH]; intros o w; cbn [check_path]; [discriminate|].
+  destruct (get o t) as [[[t0 vr] v]|].
+  - destruct v as [p|items|b f]; try discriminate.
+    destruct (nth_error items (N.to_nat item)); [apply IH|]. destruct (item =? N.of_nat (length items)); [apply IH|discriminate].
+  - destruct (negb (dict_vr dict t VR_UN =? VR_SQ) && negb (dict_vr dict t VR_UN =? VR_UN)); [discriminate|].
+    destruct (item =? 0); [apply IH|discriminate].
+Qed.
+
+Ltac errt := let H := fresh in intros H; injection H as <-; reflexivity.
+(* what the check rejects, the reference semantics rejects with the same error *)
+Lemma check_err_spec steps leaf a : constructive a = true -> forall o e,
+  check_path dict steps o = Err e -> spec_apply dict steps leaf a o = Err e.
+Proof.
+  intros Ca. induction steps as [|[t item] rest IH]; intros o e; cbn [check_path spec_apply]; [discriminate|].
+  rewrite Ca. destruct (get o t) as [[[t0 vr] v]|].
+  - destruct v as [p|items|b f]; try errt.
+    destruct (nth_error items (N.to_nat item)) as [it|].
+    + intros H. rewrite (IH _ _ H). reflexivity.
+    + rewrite andb_true_r. destruct (item =? N.of_nat (length items)); [|errt].
+      intros H. rewrite (IH _ _ H). reflexivity.
+  - unfold s_vr, dict_vr.
+    destruct (negb (match dict t with Some v => v | None => VR_UN end =? VR_SQ)
+              && negb (match dict t with Some v => v | None => VR_UN end =? VR_UN)); [errt|].
+    destruct (item =? 0); [|errt]. intros H. rewrite (IH _ _ H). reflexivity.
+Qed.
+
+(* in a data set yet to be created a checked constructive operation cannot fail *)
+Lemma leaf_empty_ok leaf a : constructive a = true -> fst (apply_leaf dict leaf a []) = Ok tt.
+Proof. destruct a; cbn; intros H; try discriminate; reflexivity. Qed.
+
+Lemma sel_empty_ok steps leaf a : constructive a = true ->
+  check_path dict steps [] = Ok tt -> fst (apply_sel dict steps leaf a []) = Ok tt.
+Proof.
+  intros Ca. induction steps as [|[t item] rest IH]; cbn [check_path apply_sel get]; [intros _; apply leaf_empty_ok, Ca|].
+  rewrite Ca.
+  destruct (negb (dict_vr dict t VR_UN =? VR_SQ) && negb (dict_vr dict t VR_UN =? VR_UN)); [discriminate|].
+  destruct (item =? 0) eqn:E; [|discriminate]. intros Hc.
+  cbn [put get e_tag fst]. rewrite N.eqb_refl. cbn [length N.of_nat].
+  replace (0 =? item) with true by lia. cbn [andb].
+  specialize (IH Hc). destruct (apply_sel dict rest leaf a []) as [r it']. exact IH.
+Qed.
+
+Lemma fail_sel_checked steps leaf a : constructive a = true ->
+  forall o, wfo o = true -> check_path dict steps o = Ok tt ->
+  fst (apply_sel dict steps leaf a o) <> Ok tt -> snd (apply_sel dict steps leaf a o) = o.
+Proof.
+  intros Ca. induction steps as [|[t item] rest IH]; intros o Hw; cbn [check_path apply_sel]; [intros _; apply fail_leaf|].
+  rewrite Ca. destruct (get o t) as [e0|] eqn:G0.
+  - rewrite G0. destruct e0 as [[t0 vr] v]. destruct v as [p|items|b f]; try discriminate.
+    pose proof (wfo_get _ _ _ Hw G0) as Hi. cbn [e_val snd] in Hi. rewrite wfv_seq in Hi.
+    rewrite andb_true_r.
+    destruct (nth_error items (N.to_nat item)) as [it|] eqn:En.
+    + assert (Hlt : (N.to_nat item < length items)%nat) by (apply nth_error_Some; rewrite En; discriminate).
+      replace (N.of_nat (length items) =? item) with false by lia.
+      intros Hc. specialize (IH it (forallb_nth_error _ _ _ _ Hi En) Hc).
+      destruct (apply_sel dict rest leaf a it) as [r it']. cbn [fst snd] in *.
+      intros Hr. rewrite (IH Hr), set_nth_same by exact En.
+      pose proof (get_tag _ _ _ G0) as Ht. cbn [e_tag fst] in Ht. subst t0.
+      apply put_get_id; [apply wfo_sorted, Hw|exact G0].
+    + destruct (item =? N.of_nat (length items)) eqn:E; [|discriminate].
+      replace (N.of_nat (length items) =? item) with true by lia.
+      intros Hc. pose proof (sel_empty_ok rest leaf a Ca Hc) as Hok.
+      destruct (apply_sel dict rest leaf a []) as [r it']. cbn [fst snd] in *. intros Hr. contradiction.
+  - destruct (negb (dict_vr dict t VR_UN =? VR_SQ) && negb (dict_vr dict t VR_UN =? VR_UN)); [discriminate|].
+    destruct (item =? 0) eqn:E; [|discriminate]. intros Hc.
+    pose proof (get_put_same o (t, VR_SQ, VSeq [])) as Hg. cbn [e_tag fst] in Hg. rewrite Hg. cbn [length N.of_nat].
+    replace (0 =? item) with true by lia. cbn [andb].
+    pose proof (sel_empty_ok rest leaf a Ca Hc) as Hok.
+    destruct (apply_sel dict rest leaf a []) as [r it']. cbn [fst snd] in *. intros Hr. contradiction.
+Qed.
+
+(* failure => unchanged, for every operation *)
+Lemma fail_apply o x : wfo o = true -> fst (apply dict o x) <> Ok tt -> snd (apply dict o x) = o.
+Proof.
+  destruct x as [[steps leaf] a]. intros Hw. cbn [apply]. destruct (constructive a) eqn:Ca.
+  - destruct (check_path dict steps o) as [[]| |] eqn:Hc; cbn [fst snd]; try reflexivity.
+    apply fail_sel_checked; assumption.
+  - apply fail_sel; [right; exact Ca|exact Hw].
+Qed.
+
 Lemma refines o x : wfo o = true ->
   match spec_op dict o x with
   | Ok o' => apply dict o x = (Ok tt, o')
   | Err e => fst (apply dict o x) = Err e
   | Panic _ => False
   end.
-Proof. destruct x as [[steps leaf] a]. apply sel_refines. Qed.
-
-(* histories: as long as no operation of the known class fails, the states coincide *)
-Definition known_fail (o : obj) (x : op) : Prop :=
-  match x with (steps, leaf, a) =>
-    steps <> [] /\ constructive a = true /\ exists e, spec_op dict o x = Err e end.
-
-Lemma step_refines o x : wfo o = true -> ~ known_fail o x -> snd (apply dict o x) = spec_step dict o x.
 Proof.
-  intros Hw Hk. pose proof (refines o x Hw) as H. unfold spec_step.
+  destruct x as [[steps leaf] a]. intros Hw. cbn [apply spec_op].
+  pose proof (sel_refines steps leaf a o Hw) as H.
+  destruct (constructive a) eqn:Ca; [|exact H].
+  destruct (check_path dict steps o) as [[]| |] eqn:Hc; [exact H| |exfalso; eapply check_no_panic; eassumption].
+  rewrite (check_err_spec steps leaf a Ca o _ Hc). reflexivity.
+Qed.
+
+(* one step of a history: the state after the operation is the reference's (failed: unchanged) *)
+Lemma step_refines o x : wfo o = true -> snd (apply dict o x) = spec_step dict o x.
+Proof.
+  intros Hw. pose proof (refines o x Hw) as H. unfold spec_step.
   destruct (spec_op dict o x) as [o'|e|] eqn:E.
   - rewrite H. reflexivity.
-  - destruct x as [[steps leaf] a]. cbn [apply] in *. apply fail_sel; [|exact Hw|rewrite H; discriminate].
-    destruct steps as [|s steps]; [left; reflexivity|]. destruct (constructive a) eqn:Ca; [|right; reflexivity].
-    exfalso. apply Hk. cbn. split; [discriminate|]. split; [exact Ca|]. exists e. exact E.
+  - apply fail_apply; [exact Hw|rewrite H; discriminate].
   - contradiction.
 Qed.
 End WithDict.
@@ -548,8 +641,9 @@ Qed.
 
 Lemma kind_apply_all ops : forall o, kind_ok o = true -> kind_ok (apply_all dict ops o) = true.
 Proof.
-  induction ops as [|x ops IH]; intros o H; cbn; [exact H|]. apply IH.
-  destruct x as [[steps leaf] a]. apply kind_apply_sel, H.
+  induction ops as [|x ops IH]; intros o H; cbn [apply_all fold_left]; [exact H|]. apply IH.
+  destruct x as [[steps leaf] a]. cbn [apply]. destruct (constructive a); [|apply kind_apply_sel, H].
+  destruct (check_path dict steps o); [apply kind_apply_sel, H|exact H|exact H].
 Qed.
 End WithDict2.
 
@@ -583,33 +677,24 @@ Proof. reflexivity. Qed.
 (** * Histories *)
 Section Histories.
 Variable dict : N -> option N.
-Fixpoint no_known_fail (ops : list op) (o : obj) : Prop :=
-  match ops with
-  | [] => True
-  | x :: r => ~ known_fail dict o x /\ no_known_fail r (spec_step dict o x)
-  end.
-
-Lemma history_refines ops : forall o, wfo o = true -> no_known_fail ops o ->
-  apply_all dict ops o = spec_all dict ops o.
+Lemma history_refines ops : forall o, wfo o = true -> apply_all dict ops o = spec_all dict ops o.
 Proof.
-  induction ops as [|x r IH]; intros o Hw Hk; [reflexivity|].
-  destruct Hk as [Hx Hr]. cbn [apply_all spec_all fold_left].
-  pose proof (step_refines dict o x Hw Hx) as Hs.
+  induction ops as [|x r IH]; intros o Hw; [reflexivity|].
+  cbn [apply_all spec_all fold_left].
+  pose proof (step_refines dict o x Hw) as Hs.
   change (fold_left (fun o x => snd (apply dict o x)) r (snd (apply dict o x))) with (apply_all dict r (snd (apply dict o x))).
   change (fold_left (spec_step dict) r (spec_step dict o x)) with (spec_all dict r (spec_step dict o x)).
-  rewrite Hs. apply IH; [|exact Hr]. rewrite <- Hs. apply wfo_apply, Hw.
+  rewrite Hs. apply IH. rewrite <- Hs. apply wfo_apply, Hw.
 Qed.
 End Histories.
 
 (** * Witnesses of the known classes *)
-(* NestedFailureLeavesPath: (0008,1140)[0].(0010,0010)[0].(0010,0020) SetStr "x" on the empty object, with
-   (0010,0010) known to the dictionary as PN: fails with NotASequence, yet (0008,1140) with one item stays *)
+(* (0008,1140)[0].(0010,0010)[0].(0010,0020) SetStr "x" on the empty object, with (0010,0010) known to the
+   dictionary as PN: fails with NotASequence and (since fix) leaves no trace *)
 Definition w_dict (t : N) : option N := if t =? 1048592 then Some 20558 else None.
 Definition w_nested : op := ([(528704, 0); (1048592, 0)], 1048608, ASet (PStr [120])).
-Lemma nested_failure_witness :
-  wfo [] = true /\ fst (apply w_dict [] w_nested) = Err e_not_a_seq /\
-  snd (apply w_dict [] w_nested) = [(528704, VR_SQ, VSeq [[]])] /\ spec_op w_dict [] w_nested = Err e_not_a_seq.
-Proof. repeat split; vm_compute; reflexivity. Qed.
+Lemma nested_failure_example : apply w_dict [] w_nested = (Err e_not_a_seq, []).
+Proof. vm_compute. reflexivity. Qed.
 
 (* PrimitiveUnderSqVr: SetStr "x" on an existing sequence attribute keeps the VR SQ with a string value *)
 Definition w_seq_obj : obj := [(528704, VR_SQ, VSeq [[]])].
